@@ -413,16 +413,25 @@ class FileStore(Store):
         metadata["fileinfo"]["filesystem_path"] = str(self.path_for_key(key).resolve())
         return Metadata(metadata).as_dict()
 
+    def _checked_key(self, key):
+        """Keys are relative paths below the store root:
+        absolute keys and keys with '..' components would address files outside of it."""
+        if key.startswith("/") or ".." in key.split("/"):
+            raise KeyNotSupportedStoreException(key=key, store=self)
+        return key
+
     def path_for_key(self, key):
         if key in (None, ""):
             return self.path
-        p = self.path / key
+        p = self.path / self._checked_key(key)
         assert p.name != self.METADATA
         return p
 
     def metadata_path_for_key(self, key):
-        p = self.path / key
-        assert p.name != self.METADATA
+        p = self.path_for_key(key)
+        if p == self.path:
+            # the metadata file of the root would be a sibling of the store root
+            raise KeyNotSupportedStoreException(key=key, store=self)
         return p.parent / self.METADATA / (p.name + ".json")
 
     def get_bytes(self, key):
